@@ -315,8 +315,11 @@ func verifyArgsUsed(set *ProviderSet, used []*providerSetSrc) []error {
 		byIface.Set(b.Iface, b)
 	}
 	usedBindings := make(map[*IfaceBinding]bool)
+	verifEnter("used", len(set.Bindings))
+	defer verifLeave("used")
 	for _, u := range used {
 		for b := u.Binding; b != nil && !usedBindings[b]; {
+			verifStep("used")
 			usedBindings[b] = true
 			b, _ = byIface.At(b.Provided).(*IfaceBinding)
 		}
